@@ -120,7 +120,7 @@ def specRender (rotate : Int) (mb : Rect) (p : Point) : Rect × Matrix :=
 /-! ### Trees inside object graphs -/
 
 /-- References to the roots of a list of trees (what a Kids array holds). -/
-def kidRefs (ts : List PTree) : List Elem := ts.map (fun t => Elem.atom (.ref t.id))
+def kidRefs (ts : List PTree) : List Elem := ts.map (fun t => Val.atom (.ref t.id))
 
 mutual
   /-- The object graph `g` contains the tree `t`: every node's dictionary is what its reference
